@@ -3,6 +3,9 @@ pub mod c03;
 pub mod c04;
 pub mod c09;
 pub mod c13;
+pub mod c16;
+pub mod c17;
+pub mod c18;
 pub mod common;
 
 use crate::drv::{Ctx, Variant};
@@ -14,6 +17,9 @@ pub fn variants(prop: &str) -> Vec<&'static Variant> {
         "C04" => c04::variants(),
         "C09" => c09::variants(),
         "C13" => c13::variants(),
+        "C16" => c16::variants(),
+        "C17" => c17::variants(),
+        "C18" => c18::variants(),
         _ => vec![],
     }
 }
@@ -25,6 +31,9 @@ pub fn run(prop: &str, ctx: &Ctx) -> Option<i32> {
         "C04" => c04::run(ctx),
         "C09" => c09::run(ctx),
         "C13" => c13::run(ctx),
+        "C16" => c16::run(ctx),
+        "C17" => c17::run(ctx),
+        "C18" => c18::run(ctx),
         _ => return None,
     })
 }
